@@ -18,10 +18,10 @@
 //   vec<L>   : L consecutive inputs/outputs
 //   mat<C,R> : column-major, m[c][r] = x[c*R + r]
 //   qua      : x[0..3] = (w, x, y, z) BY NAME (independent of memory order)
-template<int L, class T> glm::vec<L, T, glm::defaultp> ldv(T const* x) { glm::vec<L, T, glm::defaultp> v; for (int i = 0; i < L; ++i) v[i] = x[i]; return v; }
-template<int L, class T, glm::qualifier Q> void stv(T* o, glm::vec<L, T, Q> const& v) { for (int i = 0; i < L; ++i) o[i] = v[i]; }
-template<int C, int R, class T> glm::mat<C, R, T, glm::defaultp> ldm(T const* x) { glm::mat<C, R, T, glm::defaultp> m; for (int c = 0; c < C; ++c) for (int r = 0; r < R; ++r) m[c][r] = x[c * R + r]; return m; }
-template<int C, int R, class T, glm::qualifier Q> void stm(T* o, glm::mat<C, R, T, Q> const& m) { for (int c = 0; c < C; ++c) for (int r = 0; r < R; ++r) o[c * R + r] = m[c][r]; }
+template<glm::length_t L, class T> glm::vec<L, T, glm::defaultp> ldv(T const* x) { glm::vec<L, T, glm::defaultp> v; for (int i = 0; i < L; ++i) v[i] = x[i]; return v; }
+template<glm::length_t L, class T, glm::qualifier Q> void stv(T* o, glm::vec<L, T, Q> const& v) { for (int i = 0; i < L; ++i) o[i] = v[i]; }
+template<glm::length_t C, glm::length_t R, class T> glm::mat<C, R, T, glm::defaultp> ldm(T const* x) { glm::mat<C, R, T, glm::defaultp> m; for (int c = 0; c < C; ++c) for (int r = 0; r < R; ++r) m[c][r] = x[c * R + r]; return m; }
+template<glm::length_t C, glm::length_t R, class T, glm::qualifier Q> void stm(T* o, glm::mat<C, R, T, Q> const& m) { for (int c = 0; c < C; ++c) for (int r = 0; r < R; ++r) o[c * R + r] = m[c][r]; }
 template<class T> glm::qua<T, glm::defaultp> ldq(T const* x) { return glm::qua<T, glm::defaultp>::wxyz(x[0], x[1], x[2], x[3]); }
 template<class T, glm::qualifier Q> void stq(T* o, glm::qua<T, Q> const& q) { o[0] = q.w; o[1] = q.x; o[2] = q.y; o[3] = q.z; }
 #define TY(p) typename std::decay<decltype(*(p))>::type
